@@ -2,4 +2,4 @@ From Coq Require Extraction.
 From Coq Require Import ExtrOcamlBasic.
 From AIT Require Import Base.Vio Base.Qx Base.Mdp Base.MdpExec C02.Model C02.Spec C04.Model C04.Spec.
 Extraction "model.ml" vio_kit wf_mdpb wf_mdp1b EV_r vbest check_vf check_entry obs_cleanb ops_ok policy_first policy_step policy_prob best_index
-  csbb_row proj_row csbb_all tree_return ip_run prune_pw exec_return exec_steps.
+  csbb_row proj_row csbb_all tree_return ip_run prune_pw exec_return exec_steps lookahead_best.
